@@ -73,7 +73,7 @@ def lift(x):
     if isinstance(x, T.Independent):
         return ("indep", lift(x.fn), x.reals_var, x.bint_var, x.diag_var)
     if isinstance(x, T.Align):
-        return ("align", lift(x.arg), tuple(x.names))
+        return ("align", lift(x.arg), tuple(x._ast_values[1]))
     if isinstance(x, T.Finitary):
         return ("fin", _opname(x.op), _params(x.op), tuple(lift(a) for a in x.args))
     if isinstance(x, T.Tuple):
